@@ -173,6 +173,9 @@ def decode_arg(v):
 def do_call(drv, c):
     from .values import from_term
     api = c["api"]
+    if api == "_env":                          # the environment changes (not a library call): the target's admission policy
+        SessionSocket.current.target.policy = c["intent"]["policy"]
+        return None
     if api == "open":
         return drv.open()
     if api == "close":
